@@ -32,17 +32,6 @@ type Case struct {
 	Cond string `json:"cond,omitempty"`
 }
 
-// tail is what every precedence list of the case ends in.
-func (c *Case) tail() string {
-	switch c.Cond {
-	case "condition":
-		return "condition t"
-	case "error":
-		return "error serious-condition condition t"
-	}
-	return "standard-object t"
-}
-
 // allPerms lists the permutations of 0..n-1 in lexicographic order.
 func allPerms(n int) [][]int {
 	var out [][]int
@@ -104,12 +93,12 @@ func initform(r *rand.Rand, class, slot, gen int, dirtyNil bool) (string, string
 }
 
 type genOpts struct {
-	n            int
-	sharedArg    bool // an initarg named by two different slots (listed finding)
-	nilForm      bool // an :initform nil (listed finding)
-	twoArgs      bool // a slot with two initargs, so that both can be supplied (listed finding)
-	redef        bool
-	redefMid     bool
+	n         int
+	sharedArg bool // an initarg named by two different slots (listed finding)
+	nilForm   bool // an :initform nil (listed finding)
+	twoArgs   bool // a slot with two initargs, so that both can be supplied (listed finding)
+	redef     bool
+	redefMid  bool
 }
 
 func genSlots(r *rand.Rand, class, gen int, nslots int, second map[int]bool) []Slot {
@@ -337,6 +326,23 @@ func fixed() []Case {
 	out = append(out, Case{Note: "condition chain3", Cond: "condition", Classes: chain, Universe: u, Meth: []int{1, 2}, MaxArgs: 5})
 	out = append(out, Case{Note: "condition diamond5 under error, redefine apex", Cond: "error", Classes: diamond, Universe: u, Meth: []int{0, 3}, MaxArgs: 5,
 		Redef: &Redef{Class: 3, Skew: -1, Def: Class{Supers: []int{}, Slots: []Slot{sl("s0", "405", "i0"), sl("s1", "415")}}}})
+	// chain of four, redefinition of the root: two classes inherit it through another class
+	out = append(out, Case{Note: "chain4 redefine root", Universe: u, Meth: []int{1, 3}, MaxArgs: 5,
+		Classes: []Class{
+			{Supers: []int{1}, Slots: []Slot{sl("s0", "100")}},
+			{Supers: []int{2}, Slots: []Slot{sl("s1", "211", "i1")}},
+			{Supers: []int{3}, Slots: []Slot{sl("s1", "")}},
+			{Supers: []int{}, Slots: []Slot{sl("s2", "322", "i2")}},
+		},
+		Redef: &Redef{Class: 3, Skew: -1, Def: Class{Supers: []int{}, Slots: []Slot{sl("s2", "327"), sl("s0", "305", "i0")}}}})
+	// condition classes whose root names error: the base class condition comes before c3 on the list of c0
+	out = append(out, Case{Note: "condition base before another class", Cond: "error", Universe: u, Meth: []int{1, 3}, MaxArgs: 5,
+		Classes: []Class{
+			{Supers: []int{1, 2}, Slots: []Slot{sl("s0", "100")}},
+			{Supers: []int{}, Slots: []Slot{sl("s1", "211", "i1")}},
+			{Supers: []int{3}, Slots: []Slot{sl("s1", "")}},
+			{Supers: []int{}, Slots: []Slot{sl("s2", "322", "i2")}},
+		}})
 	// listed findings
 	out = append(out, Case{Note: "initarg shared by two slots", Universe: u, Meth: []int{0}, MaxArgs: 5, Classes: []Class{
 		{Supers: []int{1}, Slots: []Slot{sl("s0", "100", "i0"), sl("s1", "111", "i0", "i1")}},
@@ -356,10 +362,13 @@ func fixed() []Case {
 var fixedCases = fixed()
 
 func nCases(tier string) int {
-	if tier == "thorough" {
-		return len(fixedCases) + 12000
+	switch tier {
+	case "thorough":
+		return len(fixedCases) + 4000
+	case "smoke": // development aid: fixed block and a few random DAGs
+		return len(fixedCases) + 60
 	}
-	return len(fixedCases) + 400
+	return len(fixedCases) + 600
 }
 
 func gen(r *rand.Rand, i int, tier string) Case {
